@@ -21,10 +21,12 @@ Two kinds of site are found, per tax year, on the working tree at $HABUTAX_REPO 
 
 Each site is then looked up in the reviewed mapping `c08_map.json`:
 
-  * a threshold site is covered when the map names its amount id;
-  * an inline site is covered when its (form, line) has a `checks` entry for that year whose declared
-    `constants` contain the literal (or when the literal is listed in the line's `ignore` list, with the reason
-    -- structural constants such as the 0.001 epsilon, or a rounding unit);
+  * a threshold site is `checked` when the map names its amount id (and the table has a published value);
+  * an inline site is `checked` when its (form, line) has checks for that year and the literal equals the published
+    value (times a multiplier the check declares: `times`, `derived`) of an amount those checks mention, under a
+    status the literal is reached for;  `ignored` when the map lists it under `ignore` with the reason (structural
+    constants such as the 0.001 epsilon, a rounding unit, an amount that belongs to another property);  `mismatch`
+    when the line is mapped, the literal is NOT a published value and an obligation of the line fails on this tree;
   * everything else is `uncovered` and printed with its value, so a reader sees what C08 does not check.
 
 Nothing here decides whether an amount is right: that is gen_c08.py (kernel evaluation against Spec/Statutory.lean)
@@ -92,7 +94,12 @@ def const_number(v):
 # --------------------------------------------------------------------------------------------------
 # three-valued evaluation of filing-status conditions
 # --------------------------------------------------------------------------------------------------
+STATUS_ALIASES = set()     # local variables currently bound to the filing-status input (`status = i['1040.filing_status']`)
+
+
 def _is_status_read(e):
+    if e[0] == 'var' and e[1] in STATUS_ALIASES:
+        return True
     return e[0] == 'readI' and e[1][0] == 'const' and e[1][1][0] == 'str' and \
         e[1][1][1].split('.')[-1] == 'filing_status'
 
@@ -286,6 +293,10 @@ class Walker(object):
         k = s[0]
         if k == 'assign':
             self.expr(s[2], reach)
+            if _is_status_read(s[2]) and s[2][0] == 'readI':
+                STATUS_ALIASES.add(s[1])
+            else:
+                STATUS_ALIASES.discard(s[1])
         elif k == 'unpack':
             self.expr(s[2], reach)
         elif k == 'aug':
@@ -350,6 +361,7 @@ def find_sites(year, ir=None):
     for c in ir['classes']:
         for l in c['lines']:
             w = Walker(members)
+            STATUS_ALIASES.clear()
             for _n, v in l['defaults']:
                 w.const(v, set(members), 'default')
             w.block(l['body'], set(members))
@@ -391,42 +403,113 @@ def same_number(a, b):
         return False
 
 
-def classify(sites, cmap):
-    """annotate every site with `covered_by` (amount ids / 'ignore:<why>') or None"""
+def mentioned_amounts(node, out=None):
+    """(amount id, multiplier) pairs mentioned anywhere in a check of the map"""
+    from fractions import Fraction
+    out = [] if out is None else out
+    if isinstance(node, dict):
+        if 'amt' in node:
+            out.append((node['amt'], Fraction(str(node.get('times', '1'))), Fraction(str(node.get('plus', '0')))))
+        if isinstance(node.get('amount'), str):
+            out.append((node['amount'], Fraction(1), Fraction(0)))
+        for k, v in node.items():
+            if k == 'times' and 'amt' not in node and isinstance(node.get('amount'), str):
+                out.append((node['amount'], Fraction(str(v)), Fraction(0)))
+            mentioned_amounts(v, out)
+    elif isinstance(node, list):
+        for v in node:
+            mentioned_amounts(v, out)
+    return out
+
+
+def classify(sites, cmap, stat=None, failed_sites=()):
+    """give every site a `state`:
+         checked    mapped, and the literal is the published value (times a declared multiplier) of a mapped amount
+         ignored    listed in the map with a reason (structural constant, other property)
+         mismatch   mapped, an obligation of the site is false on this tree and the literal is not a published value
+         uncovered  not mapped, or mapped but no check explains the literal, or no confident published value
+       and `covered_by` (amount ids / 'ignore:<why>')."""
+    from fractions import Fraction
+    if stat is None:
+        import gen_c08
+        stat = gen_c08.Statutory(gen_c08.load_statutory())
     th = {}
     for e in cmap.get('thresholds', []):
-        th[(e['form'], e['name'])] = e
+        th.setdefault((e['form'], e['name']), []).append(e)
     lines = {}
     for e in cmap.get('lines', []):
         lines.setdefault((e['form'], e['line']), []).append(e)
+    ignores = {}
+    for e in cmap.get('ignore', []):
+        ignores.setdefault((e['form'], e['line']), []).append(e)
+    failed_sites = set(failed_sites)
+    failed_lines = set()
+    for k in failed_sites:
+        if k.startswith('ln:'):
+            fpart, line = k[3:].split('.', 1)
+            failed_lines.add((fpart.split(':')[0], line))
+
+    def published(year, aid, statuses):
+        vals = set()
+        for st in (statuses or STATUS_ORDER):
+            v = stat.amount(year, st, aid)
+            if v is not None:
+                vals.add(v)
+        return vals
+
     for s in sites:
         s['covered_by'] = None
+        s['state'] = 'uncovered'
+        y = s['year']
         if s['kind'] == 'threshold':
-            e = th.get((s['form'], s['name']))
-            if e is not None and applies(e, s['year']):
+            for e in th.get((s['form'], s['name']), []):
+                if not applies(e, y):
+                    continue
                 if e.get('amount'):
                     s['covered_by'] = [e['amount']]
+                    key = f"th:{s['form']}.{s['name']}"
+                    pub = published(y, e['amount'], s['statuses'])
+                    if not pub:
+                        s['state'] = 'uncovered'
+                        s['why'] = 'no confident published value'
+                    elif key in failed_sites and not any(same_number(s['value'], v * Fraction(str(e.get('times', '1')))) for v in pub):
+                        s['state'] = 'mismatch'
+                    else:
+                        s['state'] = 'checked'
                 elif e.get('ignore'):
                     s['covered_by'] = ['ignore:' + e['ignore']]
+                    s['state'] = 'ignored'
             continue
-        for e in lines.get((s['form'], s['line']), []):
-            if not applies(e, s['year']):
-                continue
-            hit = []
+        where = (s['form'], s['line'])
+        if s.get('class') == 'epsilon':
+            s['covered_by'] = ['ignore:is-it-non-zero epsilon (0.001)']
+            s['state'] = 'ignored'
+            continue
+        for ig in ignores.get(where, []) + ignores.get((s['form'], '*'), []):
+            if applies(ig, y) and any(same_number(s['value'], c) for c in ig['values']):
+                s['covered_by'] = ['ignore:' + ig['why']]
+                s['state'] = 'ignored'
+        if s['state'] == 'ignored':
+            continue
+        entries = [e for e in lines.get(where, []) if applies(e, y)]
+        hit = []
+        mapped = False
+        for e in entries:
             for chk in e.get('checks', []):
-                if not applies(chk, s['year']):
+                if not applies(chk, y):
                     continue
-                consts = chk.get('constants', {})
-                vals = consts.get(str(s['year']), consts.get('all', [])) if isinstance(consts, dict) else consts
-                if any(same_number(s['value'], c) for c in vals):
-                    hit.append(chk['amount'])
-            for ig in e.get('ignore', []):
-                if not applies(ig, s['year']):
-                    continue
-                if any(same_number(s['value'], c) for c in ig['values']):
-                    hit.append('ignore:' + ig['why'])
-            if hit:
-                s['covered_by'] = sorted(set(hit))
+                mapped = True
+                for aid, times, plus in mentioned_amounts(chk):
+                    if any(same_number(s['value'], v * times) for v in published(y, aid, s['statuses'])):
+                        hit.append(aid)
+        if hit:
+            s['covered_by'] = sorted(set(hit))
+            s['state'] = 'checked'
+        elif mapped:
+            failed_here = (s['form'], s['line']) in failed_lines
+            s['state'] = 'mismatch' if failed_here else 'uncovered'
+            if not failed_here:
+                s['why'] = 'the line is mapped but none of its checks explains this literal'
     return sites
 
 
@@ -441,10 +524,11 @@ def survey(years=YEARS, cmap=None):
 def summary(sv):
     res = {}
     for y, sites in sv.items():
-        cov = [s for s in sites if s['covered_by'] and not all(c.startswith('ignore:') for c in s['covered_by'])]
-        ign = [s for s in sites if s['covered_by'] and all(c.startswith('ignore:') for c in s['covered_by'])]
-        unc = [s for s in sites if not s['covered_by']]
-        res[y] = {'sites': len(sites), 'checked': len(cov), 'ignored_with_reason': len(ign), 'uncovered': len(unc),
+        res[y] = {'sites': len(sites),
+                  'checked': sum(1 for s in sites if s['state'] == 'checked'),
+                  'mismatch': sum(1 for s in sites if s['state'] == 'mismatch'),
+                  'ignored_with_reason': sum(1 for s in sites if s['state'] == 'ignored'),
+                  'uncovered': sum(1 for s in sites if s['state'] == 'uncovered'),
                   'threshold_sites': sum(1 for s in sites if s['kind'] == 'threshold'),
                   'inline_sites': sum(1 for s in sites if s['kind'] == 'inline')}
     return res
@@ -473,9 +557,9 @@ def main(argv=None):
     if args.all or args.uncovered:
         for y, sites in sv.items():
             for s in sites:
-                if args.uncovered and s['covered_by']:
+                if args.uncovered and s['state'] in ('checked', 'ignored'):
                     continue
-                print(describe(s), '->', ','.join(s['covered_by']) if s['covered_by'] else 'UNCOVERED')
+                print(describe(s), '->', s['state'].upper(), ','.join(s['covered_by'] or []), s.get('why', ''))
     print(json.dumps(summary(sv), indent=1))
     return 0
 
